@@ -470,9 +470,16 @@ func (p *parser) InstantiateGenericFunction(genericFunc *ast.FuncDecl, genericTy
 	// add the instantiation to prevent recursion
 	genericFunc.Generic.Instantiations[genericModule] = append(genericFunc.Generic.Instantiations[genericModule], &decl)
 
+	// the resolver and typechecker of declParser mark the declaring module as faulty on every error,
+	// but the errors of an instantiation are collected and returned to the caller, who decides
+	// wether they are reported (and then marks its own module) or wether another candidate fits
+	declModuleFaulty := declParser.module.Ast.Faulty
+
 	declParser.advance() // skip the colon for blockStatement()
 	decl.Body = declParser.blockStatement(declParser.scope()).(*ast.BlockStmt)
 	declParser.ensureReturnStatementPresent(&decl, decl.Body)
+
+	declParser.module.Ast.Faulty = declModuleFaulty
 
 	if errorCollector.DidError() {
 		// remove the instantiation as we errored
